@@ -114,6 +114,51 @@ def examine(ctx, folder, before, after, predicted, case, status=None):
     return side
 
 
+def tree(folder):
+    """{path (tuple of components relative to the storage folder): 'dir' | 'file'} of the collection tree"""
+    out = {}
+    root = os.path.join(folder, "collection-root")
+    for d, dirs, files in os.walk(root):
+        relp = tuple(os.path.relpath(d, folder).split(os.sep))
+        out[relp] = "dir"
+        for f in files:
+            out[relp + (f,)] = "file"
+    return out
+
+
+def fs_effect(ctx, case, before, after, ops):
+    """the model file system (`Trace.apply`, the semantics the effect theorems of Props/C01 and the crash theorems of Props/C02
+    are about) after the model trace, against the real tree after the request, at every visible path that could exist"""
+    cand = set(before) | set(after)
+    for o in ops:
+        cand.add(tuple(o["p"]))
+        if "q" in o:
+            cand.add(tuple(o["q"]))
+    for _ in range(2):
+        for o in ops:
+            if o["op"] in ("rename", "exchange"):
+                a, b = tuple(o["p"]), tuple(o["q"])
+                for c in list(cand):
+                    if c[:len(a)] == a:
+                        cand.add(b + c[len(a):])
+                    if c[:len(b)] == b:
+                        cand.add(a + c[len(b):])
+    cand = sorted(cand)
+    # temporary names were renumbered in the trace; the real tree has none left after the request
+    a = ctx.driver.ask1({"m": "trace", "op": "apply", "fs": [[list(p), k] for p, k in sorted(before.items())], "ops": ops,
+                         "queries": [list(c) for c in cand]})
+    diffs = []
+    for c, node, hid in zip(cand, a["nodes"], a["hidden"]):
+        if hid or fsobs.is_cache(list(c)) or fsobs.is_lock(list(c)):
+            continue
+        if node != after.get(c):
+            diffs.append(["/".join(c), after.get(c), node])
+    ctx.case("fs-effect", sample=dict(case, paths=len(cand)), key=["fs", case], nontrivial=before != after)
+    if diffs:
+        ctx.disagree("visible tree after the request vs the model file system after the model trace", case,
+                     [d[:2] for d in diffs[:6]], [[d[0], d[2]] for d in diffs[:6]])
+
+
 def one_kind(ctx, name, kind, shape, errnos, template_root):
     method, path, body, env, login, calls, expect = kind
     template = os.path.join(template_root, "tpl-%s-%d" % (name, shape))
@@ -132,6 +177,8 @@ def one_kind(ctx, name, kind, shape, errnos, template_root):
     rec.close()
     proj = fsobs.data_projection(ent, ref)
     commit = commit_ordinal(ent, ref)
+    tree_before = tree(template)
+    tree_after = tree(ref)
     shutil.rmtree(ref)
     base_case = {"request": name, "store_shape": shape, "login": login}
     if st != expect:
@@ -143,6 +190,7 @@ def one_kind(ctx, name, kind, shape, errnos, template_root):
             ctx.disagree("data projection of the syscall log vs model trace", base_case, proj, mops)
         if len(commits) != 1:
             ctx.broke("C02.OneCommit: model trace of %s has %d commit points" % (name, len(commits)))
+        fs_effect(ctx, base_case, tree_before, tree_after, mops)
     ctx.extra.setdefault("mutating_calls_per_request", {})[name] = muts
     for mode, err in [(1, 0)] + [(2, e) for e in errnos]:
         for k in range(1, muts + 2):
